@@ -176,6 +176,7 @@ func (cx *Ctx) runC15() {
 	cx.Budgets.Frame = 2_000_000
 	cx.Budgets.Ticks = 50_000_000
 	known := cx.replayKnown()
+	corpusN := cx.runCorpus()
 	r := rng{s: mix(cx.Seed, 0xC15)}
 
 	var jobs []*spec.Job
@@ -270,6 +271,7 @@ func (cx *Ctx) runC15() {
 		"unowned_seams":             cx.unownedSeams(),
 		"faults_fired":              map[string]int{"context switch at a shared-state access or sampled function entry": switches},
 		"real_thread_adjunct_O3":    o3,
+		"regression_corpus_specs":     corpusN,
 		"known_findings_confirmed":  known,
 		"violation_keys":            violKeys(cx),
 	}
